@@ -724,4 +724,4 @@ def check(ctx):
     r6_wire_symmetry(ctx)
 
 
-CLAUSE += "; the typestate exploration is closed over REQUESTS (a cookie handed out without a record starts the next request); the client state a request starts with is the cookie's, unfiltered"
+CLAUSE += " Also: the typestate exploration is closed over REQUESTS (a cookie handed out without a record starts the next request); the client state a request starts with is the cookie's, unfiltered."
